@@ -718,6 +718,12 @@ impl<'r> Gen<'r> {
                 // TopK: multi-output
                 let Some(x) = self.pick_val(s, |v| v.ty != Ty::B && !v.shape.is_empty() && v.numel() > 0) else { return false };
                 let axis = self.r.usize_below(x.shape.len());
+                // rten's TopK comparator is not a total order on NaNs (NaN vs NaN is "greater" both ways), and
+                // selecting among hundreds of thousands of NaNs then takes minutes: an operator defect that none
+                // of the properties checked here is about, so long axes are left out
+                if x.shape[axis] > 4096 {
+                    return false;
+                }
                 // (a partial sort of a 40 000-element axis for thousands of winners takes a minute per run)
                 let k = self.r.urange(1, x.shape[axis].min(16));
                 let kname = self.scalar_i64(s, &[k as i64]);
